@@ -109,7 +109,8 @@ def compile_one(src, cfgs=(), crate_type="lib", externs=None, edition="2021", us
             return Verdict(j["ok"], j["errors"], j["codes"], j["from_derive"])
         except Exception:
             pass
-    tdir = os.path.join(WORK, "e2tmp", key[:24])
+    import threading
+    tdir = os.path.join(WORK, "e2tmp", "%s-%d-%d" % (key[:24], os.getpid(), threading.get_ident()))
     os.makedirs(tdir, exist_ok=True)
     srcp = os.path.join(tdir, "case.rs")
     with open(srcp, "w") as f:
@@ -149,6 +150,8 @@ def compile_one(src, cfgs=(), crate_type="lib", externs=None, edition="2021", us
                 fd = True
     shutil.rmtree(tdir, ignore_errors=True)
     ok = p.returncode == 0
+    if any(("e2tmp" in e and ("No such file" in e or "temp dir" in e)) or "No space left" in e for e in errors):
+        raise MachineryError("rustc failed for an environmental reason, not a verdict: %s" % errors[:2])
     if not ok and not errors:
         errors.append("rustc exited %d: %s" % (p.returncode, p.stderr.decode(errors="replace")[-300:]))
     v = Verdict(ok, errors, codes, fd)
@@ -163,10 +166,22 @@ def compile_one(src, cfgs=(), crate_type="lib", externs=None, edition="2021", us
 def compile_many(cases, workers=None):
     """cases: list of dict(src=..., cfgs=(), crate_type=..., externs=...). Returns list of Verdict."""
     build_anchor()
+    # identical cases are compiled once
+    uniq = {}
+    for c in cases:
+        k = json.dumps([c["src"], list(c.get("cfgs", ())), c.get("crate_type", "lib"), sorted((c.get("externs") or {}).items()),
+                        c.get("edition", "2021"), list(c.get("extra", ()))])
+        uniq.setdefault(k, c)
     with cf.ThreadPoolExecutor(max_workers=workers or NCPU) as ex:
-        futs = [ex.submit(compile_one, c["src"], c.get("cfgs", ()), c.get("crate_type", "lib"),
-                          c.get("externs"), c.get("edition", "2021"), True, c.get("extra", ())) for c in cases]
-        return [f.result() for f in futs]
+        futs = {k: ex.submit(compile_one, c["src"], c.get("cfgs", ()), c.get("crate_type", "lib"),
+                             c.get("externs"), c.get("edition", "2021"), True, c.get("extra", ())) for k, c in uniq.items()}
+        done = {k: f.result() for k, f in futs.items()}
+    out = []
+    for c in cases:
+        k = json.dumps([c["src"], list(c.get("cfgs", ())), c.get("crate_type", "lib"), sorted((c.get("externs") or {}).items()),
+                        c.get("edition", "2021"), list(c.get("extra", ()))])
+        out.append(done[k])
+    return out
 
 
 def run_program(src, externs=None, timeout=120, cfgs=()):
